@@ -65,6 +65,37 @@ func (e *Engine) stub(fn *ssa.Function, args []any) (any, bool) {
 			}
 		}
 		return SymBool{"(str.prefixof " + strE(args[1]) + " " + strE(args[0]) + ")"}, true
+	case "strings.Join":
+		va := args[0].(SliceV)
+		if va.len == 0 {
+			return "", true
+		}
+		parts := []string{}
+		for i := 0; i < va.len; i++ {
+			if i > 0 {
+				parts = append(parts, strE(args[1]))
+			}
+			parts = append(parts, strE((*va.arr)[va.off+i]))
+		}
+		if len(parts) == 1 {
+			return SymStr{parts[0]}, true
+		}
+		return SymStr{"(str.++ " + strings.Join(parts, " ") + ")"}, true
+	case "strconv.Itoa":
+		n := intE(args[0])
+		return SymStr{fmt.Sprintf("(ite (< %s 0) (str.++ \"-\" (str.from_int (- %s))) (str.from_int %s))", n, n, n)}, true
+	case "strconv.Atoi":
+		// decimal integers with an optional sign; anything else (and more than 18 digits: overflow region) is an error
+		s := strE(args[0])
+		neg := "(str.prefixof \"-\" " + s + ")"
+		signed := "(or " + neg + " (str.prefixof \"+\" " + s + "))"
+		digits := fmt.Sprintf("(ite %s (str.substr %s 1 (- (str.len %s) 1)) %s)", signed, s, s, s)
+		val := "(str.to_int " + digits + ")"
+		okc := SymBool{fmt.Sprintf("(and (>= %s 0) (<= (str.len %s) 18))", val, digits)}
+		if e.branch(okc) {
+			return Tuple{SymInt{fmt.Sprintf("(ite %s (- %s) %s)", neg, val, val)}, IfaceV{}}, true
+		}
+		return Tuple{int64(0), e.mkErr("strconv.Atoi: invalid syntax")}, true
 	case "strings.Cut":
 		if a, ok := args[0].(string); ok {
 			if b, ok := args[1].(string); ok {
@@ -220,7 +251,7 @@ func (e *Engine) intrinsic(name string, args []any) any {
 		lc.argNames = []string{"count", "i", "post:ret"}
 		e.cut = lc
 		return nil
-	case "AdversaryConn":
+	case "AdversaryConn", "AdversaryConnMode":
 		return IfaceV{}
 	case "Quiesce":
 		e.quiesce()
